@@ -77,6 +77,9 @@ pub struct U<'a> {
     pub multi_hash: bool,
     /// allow >= 2 elements in hash-ordered collections
     pub allow_multi_hash: bool,
+    /// allow byte payloads above the 16 MiB buffer limit of the binary format
+    /// (the binary encoder rejects them; C14 only)
+    pub allow_oversize: bool,
     depth: u32,
 }
 
@@ -89,6 +92,7 @@ impl<'a> U<'a> {
             nontrivial: false,
             multi_hash: false,
             allow_multi_hash: true,
+            allow_oversize: false,
             depth: 0,
         }
     }
@@ -197,6 +201,11 @@ impl<'a> U<'a> {
                 self.cls("blob:medium");
                 let n = 49 + self.below(600);
                 self.pattern(n)
+            }
+            _ if self.allow_oversize && self.below(12) == 0 => {
+                self.boundary("blob:over-16MiB-buffer-limit");
+                let extra = self.below(3);
+                self.pattern(16 * 1024 * 1024 + 1 + extra)
             }
             _ => {
                 self.boundary("blob:large(64KiB..320KiB)");
@@ -1840,12 +1849,14 @@ where
 {
     let mut u = U::new(entropy);
     u.allow_multi_hash = multi;
+    u.allow_oversize = true;
     let x = gen(&mut u);
     let mut info = ci(&u);
     info.class(format!("type:{}", name));
     let ho = u.multi_hash;
     let mut u2 = U::new(entropy);
     u2.allow_multi_hash = multi;
+    u2.allow_oversize = true;
     let x2 = gen(&mut u2);
     let r = run(async {
         let b1 = match sos_core::encode(&x).await {
@@ -1902,12 +1913,14 @@ where
 {
     let mut u = U::new(entropy);
     u.allow_multi_hash = multi;
+    u.allow_oversize = true;
     let x = gen(&mut u);
     let mut info = ci(&u);
     info.class(format!("type:wire:{}", name));
     let ho = u.multi_hash;
     let mut u2 = U::new(entropy);
     u2.allow_multi_hash = multi;
+    u2.allow_oversize = true;
     let x2 = gen(&mut u2);
     let name = format!("wire:{}", name);
     let r = run(async {
